@@ -423,10 +423,12 @@ _ADDED9 = {
     "C04": " (OE1) no numeric value field of a pkg/dsl JSON view carries `omitempty`; (MU1) no back end sorts or reverses a slice that is a field of a definition/type/protocol node of the "
            "model (or a local aliasing one); (RJ1) raw JSON is emitted only from text that is JSON by construction; (W3) registered here too: a generated file is kept only when its whole "
            "content equals the new content.",
-    "C05": " (EC1) the name-keyed memo of the evolution analyser is allocated once per predecessor.",
-    "C06": " (EC1) see C05.",
-    "C08": " (V5) registered here too for the topological sort (dependencies-first order of generated code) and the computed-field passes.",
-    "C09": " (SH2) every `<<` has a constant count or a count bounded by the width in the same function; (Q7b) the walk that collects the model files never returns SkipDir/SkipAll and adds "
+    "C05": " (EC1) the name-keyed memo of the evolution analyser is allocated once per predecessor; (AF1) a boolean a loop accumulates is set or or-ed, never overwritten per element; "
+           "(BN1) a both-set guard over an optional field of two values handles the mixed case; (V7b) a collector of definitions ranges over every namespace.",
+    "C06": " (EC1, AF1, BN1, V7b) see C05.",
+    "C08": " (V5) registered here too for the topological sort (dependencies-first order of generated code) and the computed-field passes; (RJ1) see C04; (EB1) every body the Python "
+           "back end prints under a block header prints a statement for every model (fix cfbc950: an enum without values got a class without a body).",
+    "C09": " (AF1) see C05; (SH2) every `<<` has a constant count or a count bounded by the width in the same function; (Q7b) the walk that collects the model files never returns SkipDir/SkipAll and adds "
            "a file under tests of its name and IsDir only; (E7c) ErrorSink.Add / WarningSink.Add keep their argument on every path.",
     "C10": " (RJ1) see C04; (SH2) see C09; (V5) registered here too for the topological sort (a pruned visit lets a reference cycle reach the unbounded recursion behind it).",
     "C11": " (Q7b, E7c) see C09; (V5) registered here too for the evolution analyser.",
@@ -435,6 +437,7 @@ _ADDED9 = {
     "C14": " (PW2, PD2) see C01.",
     "C15": " (OE1, MU1, W3) see C04.",
     "C16": " (PX1) see C01; (CB5) now covers every consuming call on the input stream (read, ignore, get, seekg, ...): its outcome is looked at on every path; (VL1) see C01.",
+    "C19": " (MU1) see C04: an expression node of the model is reordered in place only by the back end that internal/cmd runs last.",
     "C17": " (PX1) see C01; (S1) registered here too: the guard under which the Python/C++ writers print the end-of-stream marker of the previous stream step is the reference one.",
 }
 for _src in (_ADDED, _ADDED3, _ADDED4, _ADDED5, _ADDED6, _ADDED7, _ADDED8, _ADDED9):
